@@ -4,6 +4,7 @@ import (
 	"fmt"
 	"go/types"
 	"math/big"
+	"regexp"
 	"sort"
 	"strings"
 )
@@ -312,13 +313,16 @@ func inRange(x Term, t types.Type) Term {
 }
 
 // typeString is a short, stable name of a Go type for component names.
+var anyRe = regexp.MustCompile(`\bany\b`)
+
 func typeString(t types.Type) string {
-	return types.TypeString(t, func(p *types.Package) string {
+	s := types.TypeString(t, func(p *types.Package) string {
 		if p.Path() == "github.com/0xrawsec/sod" {
 			return ""
 		}
 		return p.Name()
 	})
+	return anyRe.ReplaceAllString(s, "interface{}")
 }
 
 // zero value of a scalar sort
